@@ -602,6 +602,25 @@ func init() {
 				fmt.Fprintf(os.Stderr, "EV %d %x %x\n", a, b, c)
 			}
 		}
+		simrt.DebugMap = func(site, n int, typ string) {
+			if traceExecs == want {
+				fmt.Fprintf(os.Stderr, "MAP site %d n %d g %d\n", site, n, simrt.CurrentG())
+				if site == 4 && os.Getenv("SIM_DEBUG_STACK") != "" {
+					pcs := make([]uintptr, 40)
+					k := runtime.Callers(3, pcs)
+					fr := runtime.CallersFrames(pcs[:k])
+					for {
+						f, more := fr.Next()
+						if strings.Contains(f.Function, "jsightapi") {
+							fmt.Fprintf(os.Stderr, "    %s:%d\n", f.Function[strings.LastIndex(f.Function, "/")+1:], f.Line)
+						}
+						if !more {
+							break
+						}
+					}
+				}
+			}
+		}
 	}
 }
 
